@@ -150,6 +150,13 @@ class VOpaqueFn(V):
         self.make = make
 
 
+class VModule(V):
+    cls = "module"
+
+    def __init__(self, name):
+        self.name = name
+
+
 class VSuper(V):
     cls = "super"
 
@@ -161,7 +168,7 @@ BUILTIN_BASES = {"object": [], "int": ["object"], "bool": ["int"], "float": ["ob
                  "bytes": ["object"], "NoneType": ["object"], "NotImplementedType": ["object"],
                  "Exception": ["object"], "ValueError": ["Exception"], "TypeError": ["Exception"],
                  "ZeroDivisionError": ["Exception"], "OverflowError": ["Exception"], "AttributeError": ["Exception"],
-                 "ConnectionResetError": ["Exception"], "bytearray": ["object"], "socket": ["object"]}
+                 "ConnectionResetError": ["Exception"], "struct.error": ["Exception"], "bytearray": ["object"], "socket": ["object"]}
 
 
 def fp_of_int_uf():
@@ -485,6 +492,10 @@ class Interp:
 
     # ------------------------------------------------------------------ attribute access
     def getattr_(self, v, name):
+        if isinstance(v, VModule):
+            if name in MODULES[v.name]:
+                return VPrim(v.name + "." + name, MODULES[v.name][name])
+            raise Unsupported("%s.%s" % (v.name, name))
         if isinstance(v, VSuper):
             r = self.type_lookup(self.clsname(v.selfv), name, after=v.after)
             if not r:
@@ -659,6 +670,8 @@ class Interp:
                 return VNotImpl
             if n in GLOBAL_PRIMS:
                 return VPrim(n, GLOBAL_PRIMS[n])
+            if n in MODULES:
+                return VModule(n)
             raise Unsupported("name " + n)
         if isinstance(e, ast.Attribute):
             return self.getattr_(self.eval(e.value, env, f), e.attr)
@@ -999,6 +1012,46 @@ def _bytes_add(I, args):
 PRIMS[("bytes", "__add__")] = _bytes_add
 
 
+def _sock_sendall(I, args):
+    sock, b = args
+    if not isinstance(b, VBytes):
+        raise PyRaise("TypeError", "a bytes-like object is required")
+    sock.attrs.setdefault("_sent", []).append(b)
+    return VNone
+
+
+PRIMS[("socket", "sendall")] = _sock_sendall
+PRIMS[("socket", "send")] = _sock_sendall      # a send() that transfers everything (partial sends are CrossHair's subject)
+
+
+def g_struct_pack(I, args):
+    """struct.pack for the integer codes B b H h I i with an explicit byte order"""
+    fmt = args[0]
+    if not isinstance(fmt, VStr) or fmt.length is not None:
+        raise Unsupported("struct.pack format")
+    f = fmt.s
+    if not f or f[0] not in "<>!=":
+        raise Unsupported("struct.pack without explicit byte order")
+    little = f[0] == "<"
+    codes = f[1:]
+    if len(codes) != len(args) - 1:
+        raise PyRaise("struct.error", "pack expected %d items" % len(codes))
+    segs = []
+    spec = {"B": (1, False), "b": (1, True), "H": (2, False), "h": (2, True), "I": (4, False), "i": (4, True)}
+    for c, v in zip(codes, args[1:]):
+        if c not in spec or not isinstance(v, VInt):
+            raise Unsupported("struct.pack code " + c)
+        w, sg = spec[c]
+        lo, hi = (-(1 << (8 * w - 1)), (1 << (8 * w - 1)) - 1) if sg else (0, (1 << (8 * w)) - 1)
+        if I.branch(z3.Or(v.t < lo, v.t > hi)):
+            raise PyRaise("struct.error", "'%s' format requires %d <= number <= %d" % (c, lo, hi))
+        val = z3.If(v.t < 0, v.t + (1 << (8 * w)), v.t) if sg else v.t
+        if little:
+            raise Unsupported("little-endian struct.pack")
+        segs.append(("int", val, w, False))
+    return VBytes(segs)
+
+
 def g_int(I, args):
     return VInt("int", I.to_int_term(args[0]))
 
@@ -1039,3 +1092,4 @@ def g_hasattr(I, args):
 
 GLOBAL_PRIMS = {"int": None, "float": None}
 GLOBAL_PRIMS = {"abs": g_abs, "len": g_len, "hasattr": g_hasattr}
+MODULES = {"struct": {"pack": g_struct_pack}}
